@@ -59,6 +59,7 @@ def run(res, programs, tier):
         if "dashu_ratio" in P.units and "dashu_float" in P.units and P.role == "main":
             halftest.rule(res, P, P.name, "R06.5")
             _r06_6(res, P, P.name)
+            _r06_7(res, P, P.name)
     res.rule("R06.1", "infallible From<A> for B between number types only along value-set inclusions (impl table)")
     res.rule("R06.2", "a right shift of the converted value inside a TryFrom body is dominated by a test of the shifted-out bits with an Err edge")
     res.rule("R06.4", "sibling agreement: f32/f64 FloatEncoding::{encode,decode} have the same structure; to_f32/to_f64 of large integers split at one position (kept bits, sticky range, exponent)")
@@ -295,6 +296,56 @@ def _r06_6(res, P, cfgname):
             else:
                 res.fail("R06.6", cfgname, key, "%s shifts an IBig right with `>>`: on a negative value this floors (−4.5 → −5) instead of truncating toward zero like the digit-shift helpers (shr_digits / split_digits) do" % f["p"], span_loc(t["sp"]))
     res.floor("R06.6", cfgname, n, 3, "IBig right-shift sites in dashu_float / dashu_ratio")
+
+
+# ---------------------------------------------------------------------------------------------
+# R06.7  range thresholds of the float -> f32 / f64 encoders are the IEEE 754 parameters, not free
+# constants.  With an integer significand of at most MANT_DIG bits, value = m * 2^e:
+#   overflow   exactly when e >= MAX_EXP                   (f32: 128, f64: 1024)
+#   underflow to zero when e <  MIN_EXP - 2 * MANT_DIG     (f32: -125 - 48 = -173, f64: -1021 - 106 = -1127)
+#   the debug contract bit_len(m) <= MANT_DIG              (24 / 53)
+# The slots are filled from core's f32 / f64 constants; 127 (the largest *biased-free exponent of a
+# normalised significand*) in place of 128 turns the representable 2^127 into infinity.
+IEEE = {"f32": dict(MAX_EXP=128, MIN_EXP=-125, MANT_DIG=24), "f64": dict(MAX_EXP=1024, MIN_EXP=-1021, MANT_DIG=53)}
+
+
+def _const_value(t):
+    t = sym.strip_casts(t)
+    if t[0] == "const" and isinstance(t[1], int):
+        return t[1]
+    if t[0] == "bin" and t[1] in ("Sub", "Add"):
+        a, b = _const_value(t[2]), _const_value(t[3])
+        if a is not None and b is not None:
+            return a - b if t[1] == "Sub" else a + b
+    return None
+
+
+def _r06_7(res, P, cfgname):
+    res.rule("R06.7", "Repr::into_f32_internal / into_f64_internal compare the exponent with exactly MAX_EXP (overflow) and MIN_EXP - 2*MANT_DIG (underflow) of the target IEEE format")
+    for ty, par in IEEE.items():
+        f = next((g for g in P.fns("dashu_float") if g["p"].endswith("::into_%s_internal" % ty)), None)
+        if f is None:
+            res.anchor("R06.7", cfgname, "fn into_%s_internal" % ty)
+            continue
+        S = sym.Sym(f)
+        found = {}
+        for i, j, st in mir.iter_stmts(f["mir"]):
+            if st["k"] == "as" and st["rv"]["k"] == "bin" and st["rv"]["op"] in ("Ge", "Gt", "Lt", "Le"):
+                t = S.rvalue(st["rv"])
+                a = sym.strip_casts(t[2])
+                if a[0] == "place" and a[1] == ("arg", 1) and a[2] == (".exponent",):
+                    v = _const_value(t[3])
+                    found[t[1]] = (v, st)
+        want = {"Ge": par["MAX_EXP"], "Lt": par["MIN_EXP"] - 2 * par["MANT_DIG"]}
+        for op, w in want.items():
+            key = "into_%s_internal exponent %s" % (ty, op)
+            if op not in found:
+                res.anchor("R06.7", cfgname, key + " comparison")
+            elif found[op][0] == w:
+                res.ok("R06.7", cfgname, key, sample=dict(function=f["p"], comparison="exponent %s %d" % (op, w), ieee=par))
+            else:
+                res.fail("R06.7", cfgname, key, "%s tests `exponent %s %s` but the %s format requires %d (MAX_EXP=%d, MIN_EXP=%d, MANT_DIG=%d): values at the boundary are sent to infinity / zero although representable" % (
+                    f["p"], op, found[op][0], ty, w, par["MAX_EXP"], par["MIN_EXP"], par["MANT_DIG"]), span_loc(found[op][1]["sp"]))
 
 
 LEVEL = LEVEL + ' Also (R06.4) the f32 / f64 encode kernels and the to_fNN splits agree structurally, (R06.5) every half test compares a remainder with the divisor it came from, (R06.6) IBig `>>` (flooring) appears only at reviewed exact sites.'
